@@ -126,10 +126,14 @@ class _ScopeBase:
 
         builtins = global_dict["__builtins__"] if "__builtins__" in global_dict else {}
 
-        for name in local_names:
+        # The names are collected in sets. Iterate them in sorted order
+        # so the order of the resulting dict (that decides which of several
+        # names of an object is used in the generated code) does not
+        # depend on the hash seed of the interpreter.
+        for name in sorted(local_names):
             result[name] = _Unbound
 
-        for name in nonlocal_names:
+        for name in sorted(nonlocal_names):
             if name in nonlocal_dict:
                 result[name] = nonlocal_dict[name]
             elif name in global_dict:
